@@ -13,8 +13,9 @@ From HyV Require Import Base.Text Reader.Syntax Gen.ReaderTables Reader.Model Re
    annotation lies inside the enclosing one ([wn], Reader/PosInv.v). *)
 (* Children in source order, for every text: in every sequence model the next item starts after the
    previous item ended ([ordered], strict) -- except the model of the annotate sugar, which lists
-   the target before the type (design-inherent; C21_refuted_annotate_order), and except inside
-   f-strings, about whose parts nothing is claimed (C21_refuted_fstring_parts). *)
+   the target before the type (design-inherent; C21_refuted_annotate_order).  The parts of every
+   f-string and the children of every replacement field are in source order in the weak sense
+   ([ordw], part of [ord]: starts and ends do not go backwards; neighbouring parts share a brace). *)
 Theorem C21_child_within_parent_and_order : forall orc, positioned orc -> forall s ms,
   read_many orc s = Ok ms -> wnl (length s) 0 ms /\ ordl ms /\ ordered ms.
 Proof. exact read_positions. Qed.
@@ -22,7 +23,7 @@ Print Assumptions C21_child_within_parent_and_order.
 
 (* the same invariant in every mode of the reader (what the induction is about) *)
 Theorem C21_positions_invariant : forall orc, positioned orc -> forall f H md s,
-  (length s <= H)%nat -> modeinv H s md -> resinv H s (rd orc f md s).
+  (length s <= H)%nat -> modeinv H s md -> resinv H s md (rd orc f md s).
 Proof. exact rd_positions. Qed.
 Print Assumptions C21_positions_invariant.
 
@@ -66,10 +67,10 @@ Theorem C21_refuted_annotate_order : exists s ms, read_many toyp s = Ok ms /\
   ms = [At 7 0 (Seq KExpr [Sym t_annotate; At 0 0 (Sym [120]); At 4 2 (Sym [105; 110; 116])])]
   /\ ~ ordered [At 0 0 (Sym [120]); At 4 2 (Sym [105; 110; 116])].
 Proof. exact refuted_annotate_order. Qed.
-(* f DQ a { x } b DQ : the second literal part b starts at the opening quote (6 remaining), before the field (4 remaining) *)
-Theorem C21_refuted_fstring_parts : exists s, read_many toyp s =
-  Ok [At 7 0 (FStr false None [At 6 4 (Str [97] None); At 4 2 (FComp false None [120] [At 3 3 (Sym [120])]); At 6 0 (Str [98] None)])].
-Proof. exact refuted_fstring_parts. Qed.
+(* f DQ a { x } b DQ : the parts of an f-string are in (weak) source order; neighbouring parts share a brace *)
+Example C21_fstring_parts_in_order : exists s, read_many toyp s =
+  Ok [At 7 0 (FStr false None [At 6 4 (Str [97] None); At 4 2 (FComp false None [120] [At 3 3 (Sym [120])]); At 2 0 (Str [98] None)])].
+Proof. exact fstring_parts_example. Qed.
 (* 'x : the head symbol quote is not annotated: it takes the position of the whole form *)
 Theorem C21_refuted_synthesized_child : exists s, read_many toyp s = Ok [At 1 0 (Seq KExpr [Sym [113; 117; 111; 116; 101]; At 0 0 (Sym [120])])].
 Proof. exact refuted_synthesized_child. Qed.
